@@ -10,9 +10,10 @@ const RT = require('./lib/rt_record')
 
 const FN = function fn() { return ['called', ...arguments] }
 const ITEM = { id: 1, v: 'v' }
-const POOL = [undefined, null, true, false, 0, -0, 1, -1, 2, NaN, '', 'a', '0', ' ', [], [1, 2, 3], {}, { x: 1, y: 2 }, FN, ITEM]
-const POOL_NAMES = ['undefined', 'null', 'true', 'false', '0', '-0', '1', '-1', '2', 'NaN', "''", "'a'", "'0'", "' '", '[]', '[1,2,3]', '{}', '{x:1,y:2}', 'function', '{id:1,v:"v"}']
-const C_VALUES_QUICK = [0, 1, 4, 6, 11, 15] // indices into POOL used for `c` in the quick tier
+// (0.1, 0.2, 0.3, 10 and 1e308: values on which regrouping a product or a sum changes the result)
+const POOL = [undefined, null, true, false, 0, -0, 1, -1, 2, NaN, '', 'a', '0', ' ', [], [1, 2, 3], {}, { x: 1, y: 2 }, FN, ITEM, 0.1, 0.2, 0.3, 10, 1e308]
+const POOL_NAMES = ['undefined', 'null', 'true', 'false', '0', '-0', '1', '-1', '2', 'NaN', "''", "'a'", "'0'", "' '", '[]', '[1,2,3]', '{}', '{x:1,y:2}', 'function', '{id:1,v:"v"}', '0.1', '0.2', '0.3', '10', '1e308']
+const C_VALUES_QUICK = [0, 1, 4, 6, 11, 15, 20, 22] // indices into POOL used for `c` in the quick tier
 
 function same(x, y, depth = 0) {
   if (Object.is(x, y)) return true
@@ -310,8 +311,22 @@ function evaluationOrderShapes() {
   return out
 }
 
+/** object literals around the name __proto__: the shorthand defines an own property, `__proto__: v` sets the prototype */
+function protoShapes() {
+  const a = M.id('a')
+  return [
+    M.obj([{ short: '__proto__' }]),
+    M.obj([{ short: 'a' }, { short: '__proto__' }]),
+    M.mem(M.obj([{ short: '__proto__' }, { key: 'b', value: a }]), 'b'),
+    M.obj([{ key: '__proto__', value: a }]),
+    M.mem(M.obj([{ key: '__proto__', value: a }]), 'length'),
+    M.obj([{ spread: a }, { short: '__proto__' }]),
+    M.call(M.mem(M.obj([{ short: '__proto__' }]), 'hasOwnProperty'), [M.lit("'__proto__'")]),
+  ]
+}
+
 function allShapes(thorough) {
-  return [...M.shapes(thorough ? 3 : 2), ...literalShapes(), ...evaluationOrderShapes()]
+  return [...M.shapes(thorough ? 3 : 2), ...literalShapes(), ...evaluationOrderShapes(), ...protoShapes()]
 }
 
 function runShard(info, thorough) {
@@ -356,6 +371,10 @@ function runShard(info, thorough) {
           if (v === 0) minimalFailed = true
           if (f.kind === 'hoisted-position-evaluated-eagerly') {
             rep.violation('C03|hoisted-position-evaluated-eagerly', `a condition of ?: or a dynamic index that JavaScript does not reach is evaluated anyway: {{ ${text} }} with ${envText(f.env, names)} gives ${showOutcome(f.got)}, JavaScript gives ${showOutcome(f.exp)}`, { engine: 'c03', expr: text, tree: e, env: f.env, original: text })
+            continue
+          }
+          if (JSON.stringify(e).includes('"short":"__proto__"')) {
+            rep.violation('C03|proto-shorthand', `the shorthand {__proto__} sets the prototype instead of defining an own property: {{ ${text} }} with ${envText(f.env, names)} gives ${showOutcome(f.got)}, JavaScript gives ${showOutcome(f.exp)}`, { engine: 'c03', expr: text, tree: e, env: f.env, original: text })
             continue
           }
           if (f.kind === 'spread-keeps-holes') {
